@@ -522,6 +522,12 @@ V("c03-encode-int-floor", "C03", "break", "R03.3", "encode_int uses floor divisi
   "rfc7518/util.py", "    length = ((bits + 7) // 8) * 2", "    length = (bits // 8) * 2")
 V("c03-verify-floor", "C03", "break", "R03.3", "EC verify half length by floor division",
   "rfc7518/jws_algs.py", "        length = (key_size + 7) // 8", "        length = key_size // 8")
+V("c03-sign-second-return-minimal", "C03", "break", "R03.3", "EC sign has a second return that encodes r and s at their minimal length (seed C03-s)",
+  "rfc7518/jws_algs.py", "        return encode_int(r, size) + encode_int(s, size)",
+  "        if size % 8:\n            return encode_int(r, size) + encode_int(s, size)\n        return r.to_bytes((r.bit_length() + 7) // 8, \"big\") + s.to_bytes((s.bit_length() + 7) // 8, \"big\")")
+V("c03-sign-two-good-returns", "C03", "benign", "R03.3", "EC sign has two returns, both encode_int(.., curve_key_size) halves",
+  "rfc7518/jws_algs.py", "        return encode_int(r, size) + encode_int(s, size)",
+  "        if size % 8:\n            return encode_int(r, size) + encode_int(s, size)\n        return encode_int(r, size) + encode_int(s, size)")
 V("c03-detach-wrong-index", "C03", "break", "R03.4", "detach clears the signature segment",
   "rfc7515/compact.py", "    parts[1] = \"\"", "    parts[2] = \"\"")
 V("c03-detach-json-in-place", "C03", "break", "R03.4", "detach_json_content alters its argument",
